@@ -65,6 +65,10 @@ class Observe(Contract):
         S.call_args = ([selfobj], kw)
         return S
 
+    def concretize(self, I, S):
+        from . import dyn_cex
+        return dyn_cex.make_observe(I, S)
+
     def snapshot(self, I, S):
         S.old["vec"] = S.a["self"].fields["vector"].content()
         S.old["cell"] = S.a["self"].fields["vector"].cell
@@ -155,6 +159,10 @@ class GetObservation(GetObservationModel):
 
     def variants(self):
         return list(V.KINDS)
+
+    def concretize(self, I, S):
+        from . import dyn_cex
+        return dyn_cex.make_obs(I, S)
 
     def setup(self, I, variant):
         sig, T, st, net, a = dyn_setup(I, variant)
